@@ -46,6 +46,8 @@ extern unsigned long fsl_native_assert_failures;
 #define FSL_IGNORED_ASSERT(e) ((void) 0)
 
 #define FSL_MAX(a, b) ((a) < (b) ? (b) : (a)) /* std::max(a,b): returns a unless a < b */
+/* std::abs(x): the floating-point overload for doubles (fabs), the integer overloads otherwise */
+#define FSL_ABS(x) _Generic((x), double: fabs((double) (x)), float: fabs((double) (x)), default: ((x) < 0 ? -(x) : (x)))
 #define FSL_MIN(a, b) ((b) < (a) ? (b) : (a)) /* std::min(a,b): returns a unless b < a */
 #define FSL_SWAP(a, b)          \
     do                          \
